@@ -9,3 +9,6 @@ import GettsimVerif.Props.C02Ids
 #print axioms GV.Simulate.groupAggOp_grouping_union_exact
 #print axioms GV.Simulate.groupingOp_bg_union_congr
 #print axioms GV.Simulate.groupingOp_union_needs_separation
+#print axioms GV.Simulate.sys_eval_union_ids
+#print axioms GV.Simulate.sys_eval_union_ids_value
+#print axioms GV.Simulate.sys_eval_union_ids_rows
